@@ -72,15 +72,17 @@ class Result:
         self.functions = {}
 
 
-def run_verus_part(res, cfg, src, report_extra):
+def run_verus_part(res, cfg, src, report_extra, modules=None, prefix=""):
     """Generate the unit, check fidelity, run Verus on the property's modules, collect obligations tagged pid."""
     pid = res.pid
     unit = verus.load_unit()
-    work = os.path.join(VERIF, ".work", pid)
+    work = os.path.join(VERIF, ".work", os.environ.get("VERIF_WORK_TAG", "") + pid + ("-" + prefix.strip(":") if prefix else ""))
     os.makedirs(work, exist_ok=True)
     path = os.path.join(work, "unit.rs")
-    modules = cfg.get("verus_modules", [])
-    res.demoted = []
+    if modules is None:
+        modules = cfg.get("verus_modules", [])
+    if not hasattr(res, "demoted"):
+        res.demoted = []
     for attempt in range(6):
         report = {}
         out = verus.assemble(src, unit, report)
@@ -98,6 +100,8 @@ def run_verus_part(res, cfg, src, report_extra):
             if la["fn"] not in [d["fn"] for d in res.demoted]:
                 res.demoted.append(la)
         mine = [m for m in marks if pid in (m.get("tags") or [])]
+        if prefix:
+            mine = [m for m in mine if m["kind"] not in ("lemma", "specfn", "trusted") and mark_module(m) in modules]
         # every tagged mark must live in a module we verify
         needed = sorted(set(mark_module(m) for m in mine if m["kind"] not in ("specfn", "trusted")))
         for n in needed:
@@ -165,9 +169,10 @@ def run_verus_part(res, cfg, src, report_extra):
             else:
                 res.undecided.append("unstable or resource-limited Verus failure: %s (%s)" % (oid, f["message"]))
         failures = keep
-    res.fn_hashes = fn_hashes(src, report)
-    known = load_json(FNHASH_FILE, {})
-    res.changed_fns = set(fn for fn, h in res.fn_hashes.items() if fn in known and known[fn] != h)
+    if not prefix:
+        res.fn_hashes = fn_hashes(src, report)
+        known = load_json(FNHASH_FILE, {})
+        res.changed_fns = set(fn for fn, h in res.fn_hashes.items() if fn in known and known[fn] != h)
     breakdown = verus.function_breakdown(js)
     res.log["verus_functions_checked"] = len(breakdown)
     # obligations of this property
@@ -217,10 +222,14 @@ def run_verus_part(res, cfg, src, report_extra):
     for o in obls:
         if o["status"] == "failed":
             o["verifier_output"] = "\n".join(failed_by_id.get(o["id"], {}).get("msgs", []))
+    if prefix:
+        for o in obls:
+            o["id"] = prefix + o["id"]
     res.obligations += obls
-    res.functions["verify"] = sorted(set(m["fn"] for m in mine if m["kind"] in ("ensures", "invariant", "body", "proof")))
-    res.functions["lemmas"] = sorted(set(m["fn"] for m in mine if m["kind"] == "lemma"))
-    res.functions["assume_with_contract"] = [p for p in report["assume"]]
+    res.functions[prefix + "verify"] = sorted(set(m["fn"] for m in mine if m["kind"] in ("ensures", "invariant", "body", "proof")))
+    if not prefix:
+        res.functions["lemmas"] = sorted(set(m["fn"] for m in mine if m["kind"] == "lemma"))
+        res.functions["assume_with_contract"] = [p for p in report["assume"]]
     res.log["unit_report"] = {k: (len(v) if isinstance(v, list) else v) for k, v in report.items()}
     times = {}
     for k, v in breakdown.items():
@@ -242,6 +251,74 @@ def mark_module(m):
             break
         mods.append(p)
     return "::".join(mods)
+
+
+def run_canary(res, cfg, src):
+    """Thorough tier vacuity guard: with `assert(false)` at the start of every VERIFY body of this property, every one must FAIL.
+    A canary that verifies means the function's preconditions (or an assume) are contradictory and its proof is vacuous."""
+    pid = res.pid
+    unit = verus.load_unit()
+    # demoted functions stay demoted
+    for d in getattr(res, "demoted", []):
+        if d["fn"] in unit.fns:
+            unit.fns[d["fn"]].mode = "assume"; unit.fns[d["fn"]].loops = {}; unit.fns[d["fn"]].proofs = []
+    report = {}
+    out = verus.assemble(src, unit, report, canary=True)
+    work = os.path.join(VERIF, ".work", pid + "-canary")
+    os.makedirs(work, exist_ok=True)
+    path = os.path.join(work, "unit.rs")
+    open(path, "w").write(out.text())
+    extra = []
+    for m in cfg.get("verus_modules", []):
+        extra += ["--verify-module", m]
+    log = {}
+    rc, js, diags, stderr = verus.run_verus(path, log, extra=extra)
+    failures, front, notes = verus.classify(diags, out.marks, js)
+    if front:
+        res.undecided.append("canary run rejected by the Verus front end")
+        return
+    failed = set()
+    for f in failures:
+        if f["clause"] is not None and f["clause"]["kind"] == "canary":
+            failed.add(f["clause"]["fn"])
+    want = [m["fn"] for m in out.marks if m["kind"] == "canary" and pid in (m.get("tags") or [])]
+    vac = [fn for fn in want if fn not in failed]
+    res.log["canary"] = {"functions": len(want), "failed_as_required": len(want) - len(vac), "vacuous": vac, "verus_s": log.get("verus_s")}
+    for fn in vac:
+        res.undecided.append("vacuity canary: `assert(false)` at the start of %s VERIFIES - its preconditions/assumptions are contradictory" % fn)
+
+
+def run_sensitivity(res, cfg):
+    """Thorough tier: every recorded seeded change for this property (seeded/*/patch.diff, each confirmed to pass the repository's
+    own tests while breaking the property) is applied to a scratch copy and must make the quick check report a VIOLATION."""
+    import glob, subprocess, shutil, tempfile
+    out = []
+    for meta in sorted(glob.glob(os.path.join(VERIF, "seeded", "*", "meta.json"))):
+        m = json.load(open(meta))
+        if m.get("property") != res.pid:
+            continue
+        name = os.path.basename(os.path.dirname(meta))
+        d = tempfile.mkdtemp(prefix="verif-sens-")
+        try:
+            repo = os.path.join(d, "repo")
+            subprocess.run(["rsync", "-a", "--exclude", "/target", "--exclude", "/.git", workspace.REPO + "/", repo + "/"], check=True)
+            ap = subprocess.run(["patch", "-p1", "-s", "-i", os.path.join(os.path.dirname(meta), "patch.diff")], cwd=repo, stdout=subprocess.PIPE, stderr=subprocess.STDOUT, text=True)
+            if ap.returncode != 0:
+                out.append({"seed": name, "result": "patch-does-not-apply"})
+                continue
+            env = dict(os.environ)
+            env.update({"VERIF_REPO": repo, "VERIF_EVIDENCE_DIR": os.path.join(d, "ev"), "VERIF_WORK_TAG": "sens-"})
+            p = subprocess.run([os.path.join(VERIF, "verif"), "check", res.pid, "--tier", "quick"], env=env, stdout=subprocess.PIPE, stderr=subprocess.STDOUT, text=True, timeout=7200)
+            viol = [l for l in p.stdout.split("\n") if l.startswith("VIOLATION")]
+            out.append({"seed": name, "exit": p.returncode, "violations": len(viol), "result": "caught" if p.returncode == 1 and viol else "SURVIVED"})
+        finally:
+            shutil.rmtree(d, ignore_errors=True)
+    res.log["sensitivity"] = out
+    for o in out:
+        if o["result"] == "SURVIVED":
+            res.undecided.append("sensitivity suite: seeded change %s is NOT detected by this check (the check is too weak there)" % o["seed"])
+        elif o["result"] == "patch-does-not-apply":
+            res.assumptions.append("sensitivity suite: seeded change %s no longer applies to the tree (skipped)" % o["seed"])
 
 
 def scan_assumptions(text):
@@ -308,11 +385,12 @@ def match_known(known, o):
         if k.get("status", "open") != "open":
             continue
         if k.get("obligation") == o["id"]:
-            w = k.get("witness_match")
-            if not w:
+            pats = k.get("witness_all")
+            if not pats:
                 return k
-            out = (o.get("verifier_output") or "") + json.dumps(o.get("replay") or {})
-            if w in out:
+            # every individual verifier message of this obligation must be one of the known ones
+            msgs = [m for m in (o.get("verifier_output") or "").split("\nerror") if m.strip()]
+            if msgs and all(any(p in m for p in pats) for m in msgs):
                 return k
     return None
 
@@ -350,14 +428,18 @@ def write_evidence(res, cfg, rc):
         "solver_time_ms": {"verus_smt": res.log.get("verus_smt_ms"), "verus_total": res.log.get("verus_total_ms"), "kani_s": res.log.get("kani_s")},
         "extraction": {"expand_cmd": res.log.get("expand_cmd"), "unit_sha256": res.log.get("unit_sha256"), "fidelity": res.log.get("fidelity"), "report": res.log.get("unit_report")},
         "assumption_scan": res.log.get("assumption_scan"),
+        "vacuity_canary": res.log.get("canary"),
+        "sensitivity_suite": res.log.get("sensitivity"),
+        "fastmath_cfg_eval": res.log.get("fastmath_cfg_eval"),
         "explanation": cfg.get("explanation") or cfg.get("claim") or "see MANIFEST level_claimed",
         "exit_code": rc,
     }
     ev = {"property_id": pid, "tier": res.tier, "seed": res.seed, "level": level, "coverage": cov,
           "assumptions": cfg.get("assumptions", []) + res.assumptions, "wall_s": round(time.time() - res.t0, 2),
           "violations": len(res.violations)}
-    os.makedirs(os.path.join(VERIF, "evidence"), exist_ok=True)
-    json.dump(ev, open(os.path.join(VERIF, "evidence", pid + ".json"), "w"), indent=1)
+    evdir = os.environ.get("VERIF_EVIDENCE_DIR") or os.path.join(VERIF, "evidence")
+    os.makedirs(evdir, exist_ok=True)
+    json.dump(ev, open(os.path.join(evdir, pid + ".json"), "w"), indent=1)
 
 
 def check(pid, tier, seed, update_baseline=False):
@@ -371,12 +453,27 @@ def check(pid, tier, seed, update_baseline=False):
     try:
         with workspace.Scratch(pid) as sc:
             sc.copy_repo()
+            src = None
             if cfg.get("verus_modules"):
                 try:
                     src = workspace.expand(sc, res.log)
                     run_verus_part(res, cfg, src, {})
                 except (ToolError, gen.GenError) as e:
                     res.undecided.append("verus part: " + str(e))
+            if tier == "thorough" and src is not None and cfg.get("verus_modules"):
+                try:
+                    run_canary(res, cfg, src)
+                except (ToolError, gen.GenError) as e:
+                    res.undecided.append("canary part: " + str(e))
+            if cfg.get("fastmath") and src is not None:
+                try:
+                    import fastmath
+                    raw = open(os.path.join(sc.repo, "src", "bigint.rs")).read()
+                    src_fast, cfglog = fastmath.splice_bigint(src, raw)
+                    res.log["fastmath_cfg_eval"] = cfglog
+                    run_verus_part(res, cfg, src_fast, {}, modules=["bigint"], prefix="fast:")
+                except (ToolError, gen.GenError, fastmath.CfgError) as e:
+                    res.undecided.append("fast-math part: " + str(e))
             if cfg.get("kani"):
                 ov = False
                 try:
@@ -398,6 +495,11 @@ def check(pid, tier, seed, update_baseline=False):
             baseline = load_json(BASELINE_FILE, {})
             baseline[pid] = sorted(o["id"] for o in res.obligations if o["status"] in ("discharged", "bounded"))
             json.dump(baseline, open(BASELINE_FILE, "w"), indent=0, sort_keys=True)
+        if tier == "thorough" and not os.environ.get("VERIF_WORK_TAG"):
+            try:
+                run_sensitivity(res, cfg)
+            except Exception as e:
+                res.undecided.append("sensitivity suite could not run: %s" % e)
         if not res.obligations:
             res.undecided.append("vacuity guard: no obligations were generated for this property")
         rc = decide(res, cfg)
